@@ -130,7 +130,7 @@ def literal_cases(r, n):
         v = max(0, base + r.choice([0, 0, 0, -1, 1, -2, 2]))
         if r.random() < 0.15:
             v = int("".join(r.choice("123456789") + "".join(r.choice("0123456789") for _ in range(r.randint(0, 39)))))
-        pos = r.choice(["assign", "if", "arg", "inc", "dec", "prio", "ins", "nested-arg", "loopinit"])
+        pos = r.choice(["assign", "if", "arg", "inc", "dec", "prio", "ins", "nested-arg", "loopinit", "inc-inplace", "dec-inplace", "inc-in-callee"])
         L_ = str(v)
         if pos == "assign":
             t = "x := %s" % L_
@@ -144,6 +144,12 @@ def literal_cases(r, n):
             t = "x := y + %s" % L_
         elif pos == "dec":
             t = "y := 5 ;\nx := y - %s" % L_
+        elif pos == "inc-inplace":
+            t = "x := 2 ;\nx := x + %s" % L_
+        elif pos == "dec-inplace":
+            t = "x := 7 ;\nLOOP x DO\nx := x - %s\nEND" % L_
+        elif pos == "inc-in-callee":
+            t = "PROGRAM f IN a OUT a DO\na := a + %s\nEND\nx := RUN f WITH 1 END" % L_
         elif pos == "loopinit":
             t = "x := %s ;\ny := x - %s" % (L_, L_)
         elif pos == "prio":
